@@ -22,3 +22,10 @@ package leavegroup
 //@ wire ResponseMember
 //@   layout v3 MemberID string, GroupInstanceID string?, ErrorCode int16
 //@   layout v4 _ struct{} @-1, MemberID string, GroupInstanceID string?, ErrorCode int16
+
+//@ property C12
+// Routing (C12): which of the protocol message interfaces the request satisfies decides where the Transport sends it
+// (connPool.sendRequest tests BrokerMessage, then GroupMessage, then TransactionalMessage).
+//@ wire Request
+//@   implements protocol.GroupMessage
+//@   notimplements protocol.BrokerMessage
